@@ -244,7 +244,8 @@ static void gen_data(vrng* r, uint8_t* buf, size_t n, int fam)
 static size_t pick_size(vrng* r, size_t maxSize)
 {
     size_t s;
-    switch (vr_u(r, 10)) {
+    switch (vr_u(r, 11)) {
+    case 10: { static const size_t fcsEdges[] = { 255, 256, 257, 65535, 65536, 65791, 65792, 65793, 65794 }; s = fcsEdges[vr_u(r, 9)]; break; }   /* frame-content-size field width boundaries */
     case 0: s = vr_u(r, 17); break;
     case 1: case 2: s = vr_u(r, 1200); break;
     case 3: case 4: { int k = 8 + (int)vr_u(r, 13); s = ((size_t)1 << k) + vr_u(r, 5) - 2; break; }
